@@ -102,7 +102,7 @@ fn l1_at(head: u8, len: usize) {
     l1(&buf, len);
 }
 
-//@ also=C13 tier=quick timeout=1800 mem=10 bits=72 unwind=12 unwindset="memcmp=12;from_utf8=12;run_utf8_validation=12" fns=echo_wasm_abi::canonical::decode_value,dec_value,read_len,read_uint,echo_wasm_abi::canonical::encode_value,enc_int,write_major
+//@ also=C13 tier=off timeout=1800 mem=10 bits=72 unwind=12 unwindset="memcmp=12;from_utf8=12;run_utf8_validation=12" fns=echo_wasm_abi::canonical::decode_value,dec_value,read_len,read_uint,echo_wasm_abi::canonical::encode_value,enc_int,write_major
 //@ bounds="unsigned immediates 0x00 and 0x17: exact and with one trailing byte"
 //@ desc="ABI CBOR: immediate unsigned ints are one byte; a trailing byte is rejected"
 proof! {
@@ -110,7 +110,7 @@ proof! {
     fn c12_abi_uint_immediate() { l1_at(0x00, 1); l1_at(0x00, 2); l1_at(0x17, 1); l1_at(0x17, 2); reach!(); }
 }
 
-//@ also=C13 tier=quick timeout=1800 mem=10 bits=72 unwind=12 unwindset="memcmp=12;from_utf8=12;run_utf8_validation=12" fns=echo_wasm_abi::canonical::decode_value,dec_value,read_len,read_uint,echo_wasm_abi::canonical::encode_value,enc_int,write_major
+//@ also=C13 tier=off timeout=1800 mem=10 bits=72 unwind=12 unwindset="memcmp=12;from_utf8=12;run_utf8_validation=12" fns=echo_wasm_abi::canonical::decode_value,dec_value,read_len,read_uint,echo_wasm_abi::canonical::encode_value,enc_int,write_major
 //@ bounds="head 0x18 with 0, 1 and 2 following bytes (all values)"
 //@ desc="ABI CBOR: 1-byte argument: values <= 23 are non-minimal and rejected, short and trailing input rejected, the rest re-encode to themselves"
 proof! {
@@ -118,7 +118,7 @@ proof! {
     fn c12_abi_uint_w1() { l1_at(0x18, 1); l1_at(0x18, 2); l1_at(0x18, 3); reach!(); }
 }
 
-//@ also=C13 tier=quick timeout=1800 mem=10 bits=72 unwind=12 unwindset="memcmp=12;from_utf8=12;run_utf8_validation=12" fns=echo_wasm_abi::canonical::decode_value,dec_value,read_len,read_uint,echo_wasm_abi::canonical::encode_value,enc_int,write_major
+//@ also=C13 tier=off timeout=1800 mem=10 bits=72 unwind=12 unwindset="memcmp=12;from_utf8=12;run_utf8_validation=12" fns=echo_wasm_abi::canonical::decode_value,dec_value,read_len,read_uint,echo_wasm_abi::canonical::encode_value,enc_int,write_major
 //@ bounds="head 0x19 with 1, 2 and 3 following bytes (all values)"
 //@ desc="ABI CBOR: 2-byte argument: values <= 0xff rejected as non-minimal; accepted => canonical"
 proof! {
@@ -126,7 +126,7 @@ proof! {
     fn c12_abi_uint_w2() { l1_at(0x19, 2); l1_at(0x19, 3); l1_at(0x19, 4); reach!(); }
 }
 
-//@ also=C13 tier=quick timeout=1800 mem=10 bits=72 unwind=12 unwindset="memcmp=12;from_utf8=12;run_utf8_validation=12" fns=echo_wasm_abi::canonical::decode_value,dec_value,read_len,read_uint,echo_wasm_abi::canonical::encode_value,enc_int,write_major
+//@ also=C13 tier=off timeout=1800 mem=10 bits=72 unwind=12 unwindset="memcmp=12;from_utf8=12;run_utf8_validation=12" fns=echo_wasm_abi::canonical::decode_value,dec_value,read_len,read_uint,echo_wasm_abi::canonical::encode_value,enc_int,write_major
 //@ bounds="head 0x1a with 3, 4 and 5 following bytes (all values)"
 //@ desc="ABI CBOR: 4-byte argument: values <= 0xffff rejected; accepted => canonical"
 proof! {
@@ -134,7 +134,7 @@ proof! {
     fn c12_abi_uint_w4() { l1_at(0x1a, 4); l1_at(0x1a, 5); l1_at(0x1a, 6); reach!(); }
 }
 
-//@ also=C13 tier=quick timeout=1800 mem=10 bits=72 unwind=12 unwindset="memcmp=12;from_utf8=12;run_utf8_validation=12" fns=echo_wasm_abi::canonical::decode_value,dec_value,read_len,read_uint,echo_wasm_abi::canonical::encode_value,enc_int,write_major
+//@ also=C13 tier=off timeout=1800 mem=10 bits=72 unwind=12 unwindset="memcmp=12;from_utf8=12;run_utf8_validation=12" fns=echo_wasm_abi::canonical::decode_value,dec_value,read_len,read_uint,echo_wasm_abi::canonical::encode_value,enc_int,write_major
 //@ bounds="head 0x1b with 7, 8 and 9 following bytes (all values)"
 //@ desc="ABI CBOR: 8-byte argument: values <= 0xffffffff rejected; accepted => canonical"
 proof! {
@@ -142,7 +142,7 @@ proof! {
     fn c12_abi_uint_w8() { l1_at(0x1b, 8); l1_at(0x1b, 9); l1_at(0x1b, 10); reach!(); }
 }
 
-//@ also=C13 tier=quick timeout=1800 mem=10 bits=72 unwind=12 unwindset="memcmp=12;from_utf8=12;run_utf8_validation=12" fns=echo_wasm_abi::canonical::decode_value,dec_value,read_len,read_uint,echo_wasm_abi::canonical::encode_value,enc_int,write_major
+//@ also=C13 tier=off timeout=1800 mem=10 bits=72 unwind=12 unwindset="memcmp=12;from_utf8=12;run_utf8_validation=12" fns=echo_wasm_abi::canonical::decode_value,dec_value,read_len,read_uint,echo_wasm_abi::canonical::encode_value,enc_int,write_major
 //@ bounds="heads 0x1c..0x1f (reserved / indefinite additional info) with one following byte"
 //@ desc="ABI CBOR: reserved and indefinite-length heads are rejected"
 proof! {
@@ -150,7 +150,7 @@ proof! {
     fn c12_abi_uint_reserved() { l1_at(0x1c, 2); l1_at(0x1d, 2); l1_at(0x1e, 2); l1_at(0x1f, 2); reach!(); }
 }
 
-//@ also=C13 tier=quick timeout=1800 mem=10 bits=72 unwind=12 unwindset="memcmp=12;from_utf8=12;run_utf8_validation=12" fns=echo_wasm_abi::canonical::decode_value,dec_value,read_len,read_uint,echo_wasm_abi::canonical::encode_value,enc_int,write_major
+//@ also=C13 tier=off timeout=1800 mem=10 bits=72 unwind=12 unwindset="memcmp=12;from_utf8=12;run_utf8_validation=12" fns=echo_wasm_abi::canonical::decode_value,dec_value,read_len,read_uint,echo_wasm_abi::canonical::encode_value,enc_int,write_major
 //@ bounds="negative immediates and head 0x38 (all values of the argument byte)"
 //@ desc="ABI CBOR: negative ints: immediates one byte, 1-byte argument minimality, trailing byte rejected"
 proof! {
@@ -158,7 +158,7 @@ proof! {
     fn c12_abi_nint_small() { l1_at(0x20, 1); l1_at(0x37, 1); l1_at(0x38, 2); l1_at(0x38, 3); reach!(); }
 }
 
-//@ also=C13 tier=quick timeout=1800 mem=10 bits=72 unwind=12 unwindset="memcmp=12;from_utf8=12;run_utf8_validation=12" fns=echo_wasm_abi::canonical::decode_value,dec_value,read_len,read_uint,echo_wasm_abi::canonical::encode_value,enc_int,write_major
+//@ also=C13 tier=off timeout=1800 mem=10 bits=72 unwind=12 unwindset="memcmp=12;from_utf8=12;run_utf8_validation=12" fns=echo_wasm_abi::canonical::decode_value,dec_value,read_len,read_uint,echo_wasm_abi::canonical::encode_value,enc_int,write_major
 //@ bounds="head 0x3b with 8 and 9 following bytes (all values)"
 //@ desc="ABI CBOR: negative 8-byte argument: -1 - n computed without overflow; out-of-range magnitudes answered with a typed error; accepted => canonical"
 proof! {
@@ -166,7 +166,7 @@ proof! {
     fn c12_abi_nint_w8() { l1_at(0x3b, 9); l1_at(0x3b, 10); reach!(); }
 }
 
-//@ also=C13 tier=quick timeout=1800 mem=10 bits=72 unwind=12 unwindset="memcmp=12;from_utf8=12;run_utf8_validation=12" fns=echo_wasm_abi::canonical::decode_value,dec_value,read_len,read_uint,echo_wasm_abi::canonical::encode_value,enc_int,write_major
+//@ also=C13 tier=off timeout=1800 mem=10 bits=72 unwind=12 unwindset="memcmp=12;from_utf8=12;run_utf8_validation=12" fns=echo_wasm_abi::canonical::decode_value,dec_value,read_len,read_uint,echo_wasm_abi::canonical::encode_value,enc_int,write_major
 //@ bounds="simple-value heads false/true/null (exact, null also with a trailing byte), undefined, 1-byte simple, simple 0 and break"
 //@ desc="ABI CBOR: false/true/null accepted as exactly one byte and re-encode to themselves; every other simple value is rejected"
 proof! {
@@ -174,7 +174,7 @@ proof! {
     fn c12_abi_simple() { l1_at(0xf4, 1); l1_at(0xf5, 1); l1_at(0xf6, 1); l1_at(0xf6, 2); l1_at(0xf7, 1); l1_at(0xf8, 2); l1_at(0xe0, 1); l1_at(0xff, 1); reach!(); }
 }
 
-//@ also=C13 tier=quick timeout=1800 mem=10 bits=72 unwind=12 unwindset="memcmp=12;from_utf8=12;run_utf8_validation=12" fns=echo_wasm_abi::canonical::decode_value,dec_value,read_len,read_uint,echo_wasm_abi::canonical::encode_value,enc_int,write_major
+//@ also=C13 tier=off timeout=1800 mem=10 bits=72 unwind=12 unwindset="memcmp=12;from_utf8=12;run_utf8_validation=12" fns=echo_wasm_abi::canonical::decode_value,dec_value,read_len,read_uint,echo_wasm_abi::canonical::encode_value,enc_int,write_major
 //@ bounds="tag heads 0xc0, 0xc1, 0xd8, 0xdb followed by symbolic bytes"
 //@ desc="ABI CBOR: tagged items are rejected whatever follows"
 proof! {
@@ -182,7 +182,7 @@ proof! {
     fn c12_abi_tags() { l1_at(0xc0, 2); l1_at(0xc1, 2); l1_at(0xd8, 3); l1_at(0xdb, 10); reach!(); }
 }
 
-//@ also=C13 tier=quick timeout=1800 mem=10 bits=72 unwind=12 unwindset="memcmp=12;from_utf8=12;run_utf8_validation=12" fns=echo_wasm_abi::canonical::decode_value,dec_value,read_len,read_uint,echo_wasm_abi::canonical::encode_value,enc_int,write_major
+//@ also=C13 tier=off timeout=1800 mem=10 bits=72 unwind=12 unwindset="memcmp=12;from_utf8=12;run_utf8_validation=12" fns=echo_wasm_abi::canonical::decode_value,dec_value,read_len,read_uint,echo_wasm_abi::canonical::encode_value,enc_int,write_major
 //@ bounds="byte-string heads 0x40..0x42 with short, exact and trailing input; payload symbolic"
 //@ desc="ABI CBOR: byte strings: declared length checked against the remaining input; accepted => canonical"
 proof! {
@@ -190,7 +190,7 @@ proof! {
     fn c12_abi_bytes_small() { l1_at(0x40, 1); l1_at(0x40, 2); l1_at(0x41, 1); l1_at(0x41, 2); l1_at(0x41, 3); l1_at(0x42, 3); reach!(); }
 }
 
-//@ also=C13 tier=quick timeout=1800 mem=10 bits=72 unwind=12 unwindset="memcmp=12;from_utf8=12;run_utf8_validation=12" fns=echo_wasm_abi::canonical::decode_value,dec_value,read_len,read_uint,echo_wasm_abi::canonical::encode_value,enc_int,write_major
+//@ also=C13 tier=off timeout=1800 mem=10 bits=72 unwind=12 unwindset="memcmp=12;from_utf8=12;run_utf8_validation=12" fns=echo_wasm_abi::canonical::decode_value,dec_value,read_len,read_uint,echo_wasm_abi::canonical::encode_value,enc_int,write_major
 //@ bounds="byte-string head 0x58 (1-byte length) with 0..2 following bytes"
 //@ desc="ABI CBOR: a 1-byte length <= 23 is non-minimal, a larger one exceeds the input: both rejected without allocating the declared length"
 proof! {
@@ -226,7 +226,34 @@ proof! {
     }
 }
 
-//@ also=C13 tier=thorough timeout=3600 mem=28 bits=11 unwind=12 unwindset="memcmp=12" fns=echo_wasm_abi::canonical::dec_value,read_f,is_exact_int,enc_float,write_half,half::f16::to_f64
+//@ also=C13 tier=quick timeout=1800 mem=14 bits=32 unwind=12 unwindset="memcmp=12" fns=echo_wasm_abi::canonical::decode_value,dec_value,read_f,is_exact_int,can_fit_f16
+//@ bounds="the 5-byte strings fa xx xx xx xx (all 2^32 single-precision patterns)"
+//@ desc="ABI CBOR: a float sent as f32 is accepted only if it is not exactly representable as f16 (every half-precision value, normal or subnormal, must have been sent as f16) - non-minimal float widths are rejected, not normalised"
+proof! {
+    #[cfg_attr(kani, kani::stub(alloc::fmt::format, crate::stubs::fmt_format))]
+    #[cfg_attr(kani, kani::stub(half::binary16::arch::f16_to_f64, half::binary16::arch::f16_to_f64_fallback))]
+    #[cfg_attr(kani, kani::stub(half::binary16::arch::f64_to_f16, half::binary16::arch::f64_to_f16_fallback))]
+    fn c12_abi_f32_minimal_width() {
+        let raw: [u8; 4] = kani::any();
+        let buf = [0xfau8, raw[0], raw[1], raw[2], raw[3]];
+        let f = f32::from_be_bytes(raw);
+        // the statement's own predicate: f is a half-precision value iff narrowing to f16 and
+        // widening back is the identity (exponent/mantissa test written out on the bit pattern)
+        let bits = f.to_bits();
+        let (e, m) = (((bits >> 23) & 0xff) as i32 - 127, bits & 0x7f_ffff);
+        let fits_f16 = if (bits & 0x7fff_ffff) == 0 || ((bits >> 23) & 0xff) == 0xff { true }
+            else if e >= -14 && e <= 15 { m & 0x1fff == 0 }                      // normal half: 10 mantissa bits
+            else if e >= -24 && e < -14 { m & ((1u32 << (13 + (-14 - e) as u32)) - 1) == 0 } // subnormal half
+            else { false };
+        match decode_value(&buf) {
+            Ok(v) => { core::mem::forget(v); assert!(!fits_f16, "ABI CBOR: f32 encoding of a half-precision value accepted (non-minimal float width)"); }
+            Err(e) => core::mem::forget(e),
+        }
+        reach!();
+    }
+}
+
+//@ also=C13 tier=off timeout=3600 mem=28 bits=11 unwind=12 unwindset="memcmp=12" fns=echo_wasm_abi::canonical::dec_value,read_f,is_exact_int,enc_float,write_half,half::f16::to_f64
 //@ bounds="the 3-byte strings f9 xx yy whose half-precision exponent field is all ones (both infinities and every NaN payload: 2^11 patterns)"
 //@ desc="ABI CBOR: f16 infinities and NaN - accepted => re-encodes to exactly the same 3 bytes, i.e. NaN has exactly one accepted encoding (f9 7e 00)"
 proof! {
@@ -247,7 +274,7 @@ proof! {
     }
 }
 
-//@ also=C13 tier=thorough timeout=3600 mem=28 bits=24 unwind=12 unwindset="memcmp=12" fns=echo_wasm_abi::canonical::dec_value,read_f,is_exact_int,enc_float,write_half,half::f16::to_f64,half::f16::from_f64
+//@ also=C13 tier=quick timeout=1800 mem=12 bits=16 unwind=12 unwindset="memcmp=12" fns=echo_wasm_abi::canonical::dec_value,read_f,is_exact_int,enc_float,write_half,half::f16::to_f64,half::f16::from_f64
 //@ bounds="head 0xf9 with exactly 2 following bytes (all 2^16 half-precision patterns)"
 //@ desc="ABI CBOR: f16 accepted => re-encodes to exactly the same 3 bytes (integral values must have been ints; NaN has one encoding)"
 proof! {
@@ -257,7 +284,7 @@ proof! {
     fn c12_abi_f16() { let mut buf: [u8; N] = kani::any(); buf[0] = 0xf9; l1_float(&buf, 3); reach!(); }
 }
 
-//@ also=C13 tier=thorough timeout=3600 mem=14 bits=40 unwind=12 unwindset="memcmp=12" fns=echo_wasm_abi::canonical::dec_value,read_f,is_exact_int,can_fit_f16,enc_float,write_f32
+//@ also=C13 tier=off timeout=3600 mem=14 bits=40 unwind=12 unwindset="memcmp=12" fns=echo_wasm_abi::canonical::dec_value,read_f,is_exact_int,can_fit_f16,enc_float,write_f32
 //@ bounds="head 0xfa with 4 and 5 following bytes (all 2^32 single-precision patterns)"
 //@ desc="ABI CBOR: f32 accepted => canonical (values that fit f16 or are integral are rejected, the rest re-encode as the same 5 bytes)"
 proof! {
@@ -300,7 +327,7 @@ fn arr1(elem: u8, len: usize) {
     l1_array1(&buf, len);
 }
 
-//@ also=C13 tier=quick timeout=2400 mem=12 bits=64 unwind=12 unwindset="memcmp=12" fns=echo_wasm_abi::canonical::dec_value,enc_value,enc_len
+//@ also=C13 tier=off timeout=2400 mem=12 bits=64 unwind=12 unwindset="memcmp=12" fns=echo_wasm_abi::canonical::dec_value,enc_value,enc_len
 //@ bounds="one-element arrays 81 00, 81 18 xx, 81 f6, 81 f6 + trailing byte, 81 80 (nested empty array), 81 alone (missing element)"
 //@ desc="ABI CBOR arrays: accepted => canonical; element errors (non-minimal int) propagate; trailing byte and missing element rejected"
 proof! {
@@ -363,4 +390,217 @@ proof! {
 proof! {
     #[cfg_attr(kani, kani::stub(alloc::fmt::format, crate::stubs::fmt_format))]
     fn c12_abi_probe_trailing() { l1_at(0x19, 4); reach!(); }
+}
+
+
+/// Decode-only canonical-form predicate for integer heads (no encoder in the loop): the head
+/// byte and the total length are concrete, the argument bytes symbolic.
+#[inline(always)]
+fn int_case(head: u8, nbytes: usize, trailing: usize) {
+    use ciborium::value::Value;
+    let mut buf: [u8; N] = kani::any();
+    buf[0] = head;
+    let len = 1 + nbytes + trailing;
+    let mut arg: u64 = 0;
+    let mut i = 0;
+    while i < nbytes { arg = (arg << 8) | buf[1 + i] as u64; i += 1; }
+    let minimal = match nbytes { 1 => arg >= 24, 2 => arg > 0xff, 4 => arg > 0xffff, _ => arg > 0xffff_ffff };
+    match decode_value(&buf[..len]) {
+        Ok(v) => {
+            assert!(trailing == 0, "ABI CBOR: trailing byte after an integer accepted");
+            assert!(minimal, "ABI CBOR: non-minimal integer width accepted");
+            match &v {
+                Value::Integer(n) => {
+                    let want: i128 = if head & 0x20 == 0 { arg as i128 } else { -1 - arg as i128 };
+                    assert!(i128::from(*n) == want, "ABI CBOR: integer decoded to a different value");
+                }
+                _ => assert!(false, "ABI CBOR: integer head decoded to a non-integer"),
+            }
+            core::mem::forget(v);
+        }
+        Err(e) => {
+            core::mem::forget(e);
+            // positive ints of minimal width and exact length must be accepted (negatives below i64::MIN are a documented typed error)
+            if head & 0x20 == 0 { assert!(!(minimal && trailing == 0), "ABI CBOR: canonical unsigned integer rejected"); }
+        }
+    }
+}
+
+//@ also=C13 tier=quick timeout=1500 mem=12 bits=120 unwind=12 unwindset="memcmp=12" fns=echo_wasm_abi::canonical::decode_value,dec_value,read_len,read_uint
+//@ bounds="unsigned integer heads 0x18, 0x19, 0x1a, 0x1b with exactly their 1/2/4/8 argument bytes (all values) and with one trailing byte"
+//@ desc="ABI CBOR unsigned ints: accepted <=> the argument does not fit the next smaller width and nothing trails; the decoded value is the argument (non-minimal widths and trailing bytes rejected, not normalised)"
+proof! {
+    #[cfg_attr(kani, kani::stub(alloc::fmt::format, crate::stubs::fmt_format))]
+    fn c12_abi_uint_minimal_width() {
+        int_case(0x18, 1, 0); int_case(0x19, 2, 0); int_case(0x1a, 4, 0); int_case(0x1b, 8, 0);
+        int_case(0x18, 1, 1); int_case(0x1b, 8, 1);
+        reach!();
+    }
+}
+
+//@ also=C13 tier=quick timeout=1500 mem=12 bits=120 unwind=12 unwindset="memcmp=12" fns=echo_wasm_abi::canonical::decode_value,dec_value,read_len,read_uint
+//@ bounds="negative integer heads 0x38, 0x39, 0x3a, 0x3b with exactly their 1/2/4/8 argument bytes (all values) and 0x38 with one trailing byte"
+//@ desc="ABI CBOR negative ints: accepted => minimal width, nothing trails, value == -1 - argument (no wrap-around for large magnitudes)"
+proof! {
+    #[cfg_attr(kani, kani::stub(alloc::fmt::format, crate::stubs::fmt_format))]
+    fn c12_abi_nint_minimal_width() {
+        int_case(0x38, 1, 0); int_case(0x39, 2, 0); int_case(0x3a, 4, 0); int_case(0x3b, 8, 0);
+        int_case(0x38, 1, 1);
+        reach!();
+    }
+}
+
+
+// ---- one (head, exact length) case per harness: a single decode + re-encode keeps the query small
+//@ also=C13 tier=quick timeout=900 mem=8 bits=0 unwind=12 unwindset="memcmp=12" fns=echo_wasm_abi::canonical::decode_value,dec_value,read_len,read_uint,echo_wasm_abi::canonical::encode_value,enc_value,enc_int,write_major
+//@ bounds="head 0x00 (uint immediate 0x00) with exactly 0 following byte(s), all values"
+//@ desc="ABI CBOR uint immediate 0x00: accepted => re-encodes to exactly the same 1 byte(s) (non-minimal forms rejected, not normalised); nothing panics"
+proof! {
+    #[cfg_attr(kani, kani::stub(alloc::fmt::format, crate::stubs::fmt_format))]
+    fn c12_abi_exact_00() { l1_at(0x00, 1); reach!(); }
+}
+
+//@ also=C13 tier=quick timeout=900 mem=8 bits=0 unwind=12 unwindset="memcmp=12" fns=echo_wasm_abi::canonical::decode_value,dec_value,read_len,read_uint,echo_wasm_abi::canonical::encode_value,enc_value,enc_int,write_major
+//@ bounds="head 0x17 (uint immediate 0x17) with exactly 0 following byte(s), all values"
+//@ desc="ABI CBOR uint immediate 0x17: accepted => re-encodes to exactly the same 1 byte(s) (non-minimal forms rejected, not normalised); nothing panics"
+proof! {
+    #[cfg_attr(kani, kani::stub(alloc::fmt::format, crate::stubs::fmt_format))]
+    fn c12_abi_exact_17() { l1_at(0x17, 1); reach!(); }
+}
+
+//@ also=C13 tier=quick timeout=900 mem=8 bits=8 unwind=12 unwindset="memcmp=12" fns=echo_wasm_abi::canonical::decode_value,dec_value,read_len,read_uint,echo_wasm_abi::canonical::encode_value,enc_value,enc_int,write_major
+//@ bounds="head 0x18 (uint, 1-byte argument) with exactly 1 following byte(s), all values"
+//@ desc="ABI CBOR uint, 1-byte argument: accepted => re-encodes to exactly the same 2 byte(s) (non-minimal forms rejected, not normalised); nothing panics"
+proof! {
+    #[cfg_attr(kani, kani::stub(alloc::fmt::format, crate::stubs::fmt_format))]
+    fn c12_abi_exact_18() { l1_at(0x18, 2); reach!(); }
+}
+
+//@ also=C13 tier=quick timeout=900 mem=8 bits=16 unwind=12 unwindset="memcmp=12" fns=echo_wasm_abi::canonical::decode_value,dec_value,read_len,read_uint,echo_wasm_abi::canonical::encode_value,enc_value,enc_int,write_major
+//@ bounds="head 0x19 (uint, 2-byte argument) with exactly 2 following byte(s), all values"
+//@ desc="ABI CBOR uint, 2-byte argument: accepted => re-encodes to exactly the same 3 byte(s) (non-minimal forms rejected, not normalised); nothing panics"
+proof! {
+    #[cfg_attr(kani, kani::stub(alloc::fmt::format, crate::stubs::fmt_format))]
+    fn c12_abi_exact_19() { l1_at(0x19, 3); reach!(); }
+}
+
+//@ also=C13 tier=quick timeout=900 mem=8 bits=32 unwind=12 unwindset="memcmp=12" fns=echo_wasm_abi::canonical::decode_value,dec_value,read_len,read_uint,echo_wasm_abi::canonical::encode_value,enc_value,enc_int,write_major
+//@ bounds="head 0x1a (uint, 4-byte argument) with exactly 4 following byte(s), all values"
+//@ desc="ABI CBOR uint, 4-byte argument: accepted => re-encodes to exactly the same 5 byte(s) (non-minimal forms rejected, not normalised); nothing panics"
+proof! {
+    #[cfg_attr(kani, kani::stub(alloc::fmt::format, crate::stubs::fmt_format))]
+    fn c12_abi_exact_1a() { l1_at(0x1a, 5); reach!(); }
+}
+
+//@ also=C13 tier=quick timeout=900 mem=8 bits=64 unwind=12 unwindset="memcmp=12" fns=echo_wasm_abi::canonical::decode_value,dec_value,read_len,read_uint,echo_wasm_abi::canonical::encode_value,enc_value,enc_int,write_major
+//@ bounds="head 0x1b (uint, 8-byte argument) with exactly 8 following byte(s), all values"
+//@ desc="ABI CBOR uint, 8-byte argument: accepted => re-encodes to exactly the same 9 byte(s) (non-minimal forms rejected, not normalised); nothing panics"
+proof! {
+    #[cfg_attr(kani, kani::stub(alloc::fmt::format, crate::stubs::fmt_format))]
+    fn c12_abi_exact_1b() { l1_at(0x1b, 9); reach!(); }
+}
+
+//@ also=C13 tier=quick timeout=900 mem=8 bits=0 unwind=12 unwindset="memcmp=12" fns=echo_wasm_abi::canonical::decode_value,dec_value,read_len,read_uint,echo_wasm_abi::canonical::encode_value,enc_value,enc_int,write_major
+//@ bounds="head 0x20 (nint immediate 0x20) with exactly 0 following byte(s), all values"
+//@ desc="ABI CBOR nint immediate 0x20: accepted => re-encodes to exactly the same 1 byte(s) (non-minimal forms rejected, not normalised); nothing panics"
+proof! {
+    #[cfg_attr(kani, kani::stub(alloc::fmt::format, crate::stubs::fmt_format))]
+    fn c12_abi_exact_20() { l1_at(0x20, 1); reach!(); }
+}
+
+//@ also=C13 tier=quick timeout=900 mem=8 bits=8 unwind=12 unwindset="memcmp=12" fns=echo_wasm_abi::canonical::decode_value,dec_value,read_len,read_uint,echo_wasm_abi::canonical::encode_value,enc_value,enc_int,write_major
+//@ bounds="head 0x38 (nint, 1-byte argument) with exactly 1 following byte(s), all values"
+//@ desc="ABI CBOR nint, 1-byte argument: accepted => re-encodes to exactly the same 2 byte(s) (non-minimal forms rejected, not normalised); nothing panics"
+proof! {
+    #[cfg_attr(kani, kani::stub(alloc::fmt::format, crate::stubs::fmt_format))]
+    fn c12_abi_exact_38() { l1_at(0x38, 2); reach!(); }
+}
+
+//@ also=C13 tier=quick timeout=900 mem=8 bits=16 unwind=12 unwindset="memcmp=12" fns=echo_wasm_abi::canonical::decode_value,dec_value,read_len,read_uint,echo_wasm_abi::canonical::encode_value,enc_value,enc_int,write_major
+//@ bounds="head 0x39 (nint, 2-byte argument) with exactly 2 following byte(s), all values"
+//@ desc="ABI CBOR nint, 2-byte argument: accepted => re-encodes to exactly the same 3 byte(s) (non-minimal forms rejected, not normalised); nothing panics"
+proof! {
+    #[cfg_attr(kani, kani::stub(alloc::fmt::format, crate::stubs::fmt_format))]
+    fn c12_abi_exact_39() { l1_at(0x39, 3); reach!(); }
+}
+
+//@ also=C13 tier=quick timeout=900 mem=8 bits=32 unwind=12 unwindset="memcmp=12" fns=echo_wasm_abi::canonical::decode_value,dec_value,read_len,read_uint,echo_wasm_abi::canonical::encode_value,enc_value,enc_int,write_major
+//@ bounds="head 0x3a (nint, 4-byte argument) with exactly 4 following byte(s), all values"
+//@ desc="ABI CBOR nint, 4-byte argument: accepted => re-encodes to exactly the same 5 byte(s) (non-minimal forms rejected, not normalised); nothing panics"
+proof! {
+    #[cfg_attr(kani, kani::stub(alloc::fmt::format, crate::stubs::fmt_format))]
+    fn c12_abi_exact_3a() { l1_at(0x3a, 5); reach!(); }
+}
+
+//@ also=C13 tier=quick timeout=900 mem=8 bits=64 unwind=12 unwindset="memcmp=12" fns=echo_wasm_abi::canonical::decode_value,dec_value,read_len,read_uint,echo_wasm_abi::canonical::encode_value,enc_value,enc_int,write_major
+//@ bounds="head 0x3b (nint, 8-byte argument) with exactly 8 following byte(s), all values"
+//@ desc="ABI CBOR nint, 8-byte argument: accepted => re-encodes to exactly the same 9 byte(s) (non-minimal forms rejected, not normalised); nothing panics"
+proof! {
+    #[cfg_attr(kani, kani::stub(alloc::fmt::format, crate::stubs::fmt_format))]
+    fn c12_abi_exact_3b() { l1_at(0x3b, 9); reach!(); }
+}
+
+//@ also=C13 tier=quick timeout=900 mem=8 bits=0 unwind=12 unwindset="memcmp=12" fns=echo_wasm_abi::canonical::decode_value,dec_value,read_len,read_uint,echo_wasm_abi::canonical::encode_value,enc_value,enc_int,write_major
+//@ bounds="head 0xf4 (false) with exactly 0 following byte(s), all values"
+//@ desc="ABI CBOR false: accepted => re-encodes to exactly the same 1 byte(s) (non-minimal forms rejected, not normalised); nothing panics"
+proof! {
+    #[cfg_attr(kani, kani::stub(alloc::fmt::format, crate::stubs::fmt_format))]
+    fn c12_abi_exact_f4() { l1_at(0xf4, 1); reach!(); }
+}
+
+//@ also=C13 tier=quick timeout=900 mem=8 bits=0 unwind=12 unwindset="memcmp=12" fns=echo_wasm_abi::canonical::decode_value,dec_value,read_len,read_uint,echo_wasm_abi::canonical::encode_value,enc_value,enc_int,write_major
+//@ bounds="head 0xf5 (true) with exactly 0 following byte(s), all values"
+//@ desc="ABI CBOR true: accepted => re-encodes to exactly the same 1 byte(s) (non-minimal forms rejected, not normalised); nothing panics"
+proof! {
+    #[cfg_attr(kani, kani::stub(alloc::fmt::format, crate::stubs::fmt_format))]
+    fn c12_abi_exact_f5() { l1_at(0xf5, 1); reach!(); }
+}
+
+//@ also=C13 tier=quick timeout=900 mem=8 bits=0 unwind=12 unwindset="memcmp=12" fns=echo_wasm_abi::canonical::decode_value,dec_value,read_len,read_uint,echo_wasm_abi::canonical::encode_value,enc_value,enc_int,write_major
+//@ bounds="head 0xf6 (null) with exactly 0 following byte(s), all values"
+//@ desc="ABI CBOR null: accepted => re-encodes to exactly the same 1 byte(s) (non-minimal forms rejected, not normalised); nothing panics"
+proof! {
+    #[cfg_attr(kani, kani::stub(alloc::fmt::format, crate::stubs::fmt_format))]
+    fn c12_abi_exact_f6() { l1_at(0xf6, 1); reach!(); }
+}
+
+//@ also=C13 tier=quick timeout=900 mem=8 bits=0 unwind=12 unwindset="memcmp=12" fns=echo_wasm_abi::canonical::decode_value,dec_value,read_len,read_uint,echo_wasm_abi::canonical::encode_value,enc_value,enc_int,write_major
+//@ bounds="head 0x40 (empty byte string) with exactly 0 following byte(s), all values"
+//@ desc="ABI CBOR empty byte string: accepted => re-encodes to exactly the same 1 byte(s) (non-minimal forms rejected, not normalised); nothing panics"
+proof! {
+    #[cfg_attr(kani, kani::stub(alloc::fmt::format, crate::stubs::fmt_format))]
+    fn c12_abi_exact_40() { l1_at(0x40, 1); reach!(); }
+}
+
+//@ also=C13 tier=quick timeout=900 mem=8 bits=16 unwind=12 unwindset="memcmp=12" fns=echo_wasm_abi::canonical::decode_value,dec_value,read_len,read_uint,echo_wasm_abi::canonical::encode_value,enc_value,enc_int,write_major
+//@ bounds="head 0x42 (2-byte byte string) with exactly 2 following byte(s), all values"
+//@ desc="ABI CBOR 2-byte byte string: accepted => re-encodes to exactly the same 3 byte(s) (non-minimal forms rejected, not normalised); nothing panics"
+proof! {
+    #[cfg_attr(kani, kani::stub(alloc::fmt::format, crate::stubs::fmt_format))]
+    fn c12_abi_exact_42() { l1_at(0x42, 3); reach!(); }
+}
+
+/// Decode-only: this (head, total length) must be rejected whatever the other bytes are.
+#[inline(always)]
+fn must_reject(head: u8, len: usize) {
+    let mut buf: [u8; N] = kani::any();
+    buf[0] = head;
+    match decode_value(&buf[..len]) {
+        Ok(v) => { core::mem::forget(v); assert!(false, "ABI CBOR: input that cannot be canonical was accepted"); }
+        Err(e) => core::mem::forget(e),
+    }
+}
+
+//@ also=C13 tier=quick timeout=1500 mem=12 bits=400 unwind=12 unwindset="memcmp=12" fns=echo_wasm_abi::canonical::decode_value,dec_value,read_len
+//@ bounds="leaf items followed by one trailing byte (00, 17, 18 xx, f4, f6, 40 + byte), items cut short (18, 19 xx, 1b + 7 bytes, 41), reserved/indefinite additional info (1c..1f, 3c, 5f, 9f, bf + byte), tags (c0, d8 xx + byte), unsupported simple values (e0, f7, f8 xx, ff); all other bytes symbolic"
+//@ desc="ABI CBOR rejects: trailing bytes, truncated items, reserved/indefinite lengths, tags and unsupported simple values are typed errors, never accepted"
+proof! {
+    #[cfg_attr(kani, kani::stub(alloc::fmt::format, crate::stubs::fmt_format))]
+    fn c12_abi_rejects() {
+        must_reject(0x00, 2); must_reject(0x17, 2); must_reject(0x18, 3); must_reject(0xf4, 2); must_reject(0xf6, 2); must_reject(0x40, 2);
+        must_reject(0x18, 1); must_reject(0x19, 2); must_reject(0x1b, 8); must_reject(0x41, 1);
+        must_reject(0x1c, 2); must_reject(0x1f, 2); must_reject(0x3c, 2); must_reject(0x5f, 2); must_reject(0x9f, 2); must_reject(0xbf, 2);
+        must_reject(0xc0, 2); must_reject(0xd8, 3); must_reject(0xe0, 1); must_reject(0xf7, 1); must_reject(0xf8, 2); must_reject(0xff, 1);
+        reach!();
+    }
 }
